@@ -70,9 +70,16 @@ func c08Gen(r *rand.Rand, tier string, idx int) any {
 	sizes := []int{0, 1, 2, 3, 4, 9, 10, 11}
 	for range c.Sources {
 		n := pick(r, sizes)
+		if r.Intn(12) == 0 {
+			// long histories, around the sizes at which a limit (given or not) would bite
+			n = pick(r, []int{499, 500, 501, 999, 1000, 1001, 1500})
+		}
 		var p []string
 		for i := 0; i < n; i++ {
 			l := pick(r, c08Lines)
+			if n > 20 {
+				l = fmt.Sprintf("%s # %d", l, i)
+			}
 			if len(p) > 0 && p[len(p)-1] == l {
 				l += " again"
 			}
@@ -316,7 +323,7 @@ func init() {
 		ID:        "C08",
 		Level:     "exploration",
 		NeedsTerm: true,
-		Rule: "1-3 bound history sources (in-memory, file-backed, a harness source counting Write calls) with prior contents of 0-11 entries (one file source in four has its last record torn by 1-12 bytes, as after a crash in the middle of an append, and is opened as a new process finds it; after every call a file source is reloaded from disk and must equal the open source), history-size in {unset, 0, 3, 10, 1000} via INPUTRC, and 1-4 consecutive Readline calls on the same Shell; each call types a line (plain, padded, blank, duplicate of a source's newest/older entry, Unicode, multi-line through AcceptMultiline) and leaves through accept-line / accept-and-hold / multi-line accept / operate-and-get-next / accept-and-infer-next-history / C-c / C-d; oracle per source from the before/after contents: exactly one append of the trimmed line for ordinary accepts unless blank or equal to that source's newest entry; unchanged for errors and replaying accepts; with a limit N, len < N must record, len >= N either. " +
+		Rule: "1-3 bound history sources (in-memory, file-backed, a harness source counting Write calls) with prior contents of 0-11 entries, one in twelve of 499-1500 entries (one file source in four has its last record torn by 1-12 bytes, as after a crash in the middle of an append, and is opened as a new process finds it; after every call a file source is reloaded from disk and must equal the open source), history-size in {unset, 0, 3, 10, 1000} via INPUTRC, and 1-4 consecutive Readline calls on the same Shell; each call types a line (plain, padded, blank, duplicate of a source's newest/older entry, Unicode, multi-line through AcceptMultiline) and leaves through accept-line / accept-and-hold / multi-line accept / operate-and-get-next / accept-and-infer-next-history / C-c / C-d; oracle per source from the before/after contents: exactly one append of the trimmed line for ordinary accepts unless blank or equal to that source's newest entry; unchanged for errors and replaying accepts; with a limit N, len < N must record, len >= N either. " +
 			"distinct non-trivial = distinct (variant, source kind, line class, size class, number of sources) tuples",
 		Assumptions: []string{"Emacs mode", "a held or inferred line left in the buffer by the previous call is cleared (C-a C-k) before typing"},
 		N: func(tier string) int {
